@@ -14,6 +14,8 @@ theorem liveInv_init (M : Machine S) (hs : ReplaySafe M) (c0 : Nat) :
   votes := by intro v hv; simp [votesOf] at hv
   rok := by simp [above, sortByHeight, ReplayOK]
   votesR := by simp [above, sortByHeight, replayRun, votesOf]
+  timers := by intro t ht; simp [timersOf] at ht
+  timersR := by simp [above, sortByHeight, replayRun, timersOf]
 
 theorem liveInv_run (M : Machine S) (hs : ReplaySafe M) (ins : List Input) (s : S) (E : List Entry)
     (b : Nat) (tr : List Effect) (inv : LiveInv M s E b tr) (ok : ListenOK M s ins) :
